@@ -95,6 +95,38 @@ POISON_OBJ = [None, (1, 2), (1, 2, 3, 4, 5), (300, 0, 0), (-1, 0, 0), ("a", "b",
 CSS_KEYWORDS = ["inherit", "currentcolor", "transparent", "initial", "unset", "currentColor"]
 
 
+_NUM_FAMILIES = (
+    [(1, 1, 1), (1.0, 1.0, 1.0), (True, True, True)],
+    [(255, 0, 0), (255, 0.0, 0.0)],
+    [(200, 1, 1), (200, 1.0, 1.0)],
+    [(0, 1, 0), (0, 1.0, 0), (0.0, 1, 0.0)],
+    [(0, 0, 1), (0, 0, 1.0), [0, 0, 1]],
+    [(1, 0, 0), (1.0, 0, 0), (True, False, False)],
+    [(120, 1, 0), (120, 1.0, 0.0), (120, 1.0, 0)],
+)
+
+
+def alias_family(rng):
+    """Spellings that collide under plausible cache keys (==/hash, str(), repr(), lower(), strip()) although
+    they denote different colours or call for different output formats. Used to place several members of one
+    family in the same list / history / thread workload."""
+    m = rng.random()
+    if m < 0.35:
+        return [x for x in rng.choice(_NUM_FAMILIES)]
+    rgb = rand_rgb(rng)
+    if m < 0.75:
+        t = tuple(rgb)
+        fam = [t, list(t), str(t), str(list(t)), "%d, %d, %d" % t, "rgb(%d, %d, %d)" % t, repr(t).replace(" ", "")]
+    else:
+        h = "%02x%02x%02x" % tuple(rgb)
+        fam = ["#" + h, "#" + h.upper(), h, h.upper(), " #" + h + " ", "#" + h + "\n"]
+        if tuple(rgb) in _NAMES_BY_RGB:
+            n = _NAMES_BY_RGB[tuple(rgb)][0]
+            fam += [n, n.upper(), n.capitalize(), " " + n]
+    rng.shuffle(fam)
+    return fam[: rng.randint(2, 4)]
+
+
 def rand_rgb(rng):
     m = rng.random()
     if m < 0.25:
